@@ -51,7 +51,7 @@ def configure(live_ids, tier, opts):
 
 
 def _prof():
-    return docs.profile(max_schemas=4, max_props=4, max_ops=3, max_depth=2, desc=False, component_unions=False, affix_names=True,
+    return docs.profile(max_schemas=4, max_props=4, max_ops=3, max_depth=2, desc=False, component_unions=False, affix_names=True, prefix_items=True,
                         multi_body_multipart=False, multi_body_array=False, const_float="KF-C11-03" not in _live)
 
 
